@@ -14,3 +14,4 @@ func hookTables(w *ecs.World) (int, int, int)               { return w.VerifTabl
 func hookLocate(w *ecs.World, e ecs.Entity) (int, int, int) { return w.VerifLocate(e) }
 func hookCapSum(w *ecs.World) int                           { return w.VerifCapSum() }
 func hookLocks(w *ecs.World) int                            { return w.VerifLocks() }
+func hookResIDValue(id ecs.ResID) int                       { return ecs.VerifResIDValue(id) }
